@@ -117,7 +117,7 @@ func TestC16L1(t *testing.T) {
 		w.opCreate(rt, true)
 		deleted, batchUpd, claims := 0, 0, 0
 		bulkAt := -1
-		if rapid.IntRange(0, 19).Draw(rt, "bulk") == 0 {
+		if rapid.IntRange(0, 11).Draw(rt, "bulk") == 0 {
 			bulkAt = rapid.IntRange(0, 30).Draw(rt, "bulkAt")
 		}
 		repeatSteps(rt, 40, func(i int) {
